@@ -475,6 +475,25 @@ void vf::run_case(Src &s, Ctx &c)
     }
     if ((routine == 7 || routine == 8) && ret)
         VCHECK(c, out.check(), "C17/simplify-true-but-invalid", "%s returned true but path.check() fails", rn[routine]);
+    if (routine == 7)
+    {
+        // The combined routine makes passes, and between two evaluations of the termination condition it modifies the path once: whether an
+        // interruption leaves an unchecked path behind depends on the exact evaluation at which the condition fires. A window of 16 consecutive
+        // firing indices (derived from the decoded limit, no further choice bytes) is therefore swept on copies of the same input path.
+        const long base = ptc.limit % 96;
+        for (long k = base; k < base + 16; ++k)
+        {
+            og::PathGeometric cp(path);
+            og::PathSimplifier ps2(si, goalForSimplifier, obj);
+            CountPTC p2;
+            p2.limit = k;
+            bool r2 = ps2.simplify(cp, p2.make(), (k & 1) != 0);
+            if (r2)
+                VCHECK(c, cp.check(), "C17/simplify-true-but-invalid", "simplify (termination condition firing at evaluation %ld) returned true but path.check() fails", k);
+            VCHECK(c, cp.getStateCount() > 0 && image(cp.getState(0)) == imgFirst, "C17/first-state-changed/simplify", "simplify (firing index %ld) changed the first state", k);
+        }
+        c.count("simplify:firing-index-sweep");
+    }
     if (densify)
     {
         // original vertices present in order
